@@ -29,7 +29,7 @@ from vf.refs import chunk_ref
 
 ID = 'C06'
 LEVEL = 'exploration'
-RULE = ('(a) Hypothesis draws random byte strings or a grammar-generated request plus a list of mutations, a segmentation, '
+RULE = ('(a) Hypothesis draws random byte strings, a grammar-generated request plus a list of mutations, or a sequence of 2..4 complete requests (routed / unrouted / upgrade / odd paths) for one connection, a segmentation, '
         'and whether the upstream connect is refused; (b) builder arguments (status codes admitting a body, reasons, token '
         'header names, CRLF-free values, bodies, conn_close/no_cl, compression thresholds). '
         'Non-trivial: (a) the input reached plugin dispatch or produced a response; (b) body non-empty or >= 2 headers. '
